@@ -43,7 +43,12 @@ class Monitor:
     def build(self, cfg):
         n = cfg["n"]
         r = common.rng("evbuild", cfg["shuffle"])
-        srcs = [event.Source(trigger=cfg["modes"][k], path=(f"s{k}",)) for k in range(n)]
+        # sources are told apart by identity, never by name: a third of the monitors get sources with default paths
+        # (all lines are called "i"), another third sources that share one explicit path
+        style = cfg["shuffle"] % 3
+        srcs = [event.Source(trigger=cfg["modes"][k], path=(f"s{k}",)) if style == 0 else
+                event.Source(trigger=cfg["modes"][k]) if style == 1 else
+                event.Source(trigger=cfg["modes"][k], path=("dev", "irq")) for k in range(n)]
         em = event.EventMap()
         # k-th FIRST-added source is srcs[k]; repeats are interleaved and must be ignored
         for k in range(n):
